@@ -74,7 +74,7 @@ def shortest_depths(adj, root=0):
     return d
 
 
-def write_graph(base, n, adj_ordered, ns_of=None, dir_of=None, import_path=None):
+def write_graph(base, n, adj_ordered, ns_of=None, dir_of=None, import_path=None, no_refs_to=()):
     """adj_ordered: {u: [v...]} in the order the imports are listed."""
     ns_of = ns_of or (lambda i: "P%d" % i)
     dir_of = dir_of or (lambda i: "p%d" % i)
@@ -86,7 +86,7 @@ def write_graph(base, n, adj_ordered, ns_of=None, dir_of=None, import_path=None)
             man += "imports:\n" + "".join("  - %s\n" % (import_path(i, j) if import_path else "../" + dir_of(j)) for j in imps)
         if i == 0:
             man += "json:\n  outputDir: ../out/json\npython:\n  outputDir: ../out/py\ncpp:\n  sourcesOutputDir: ../out/cpp\n  generateCMakeLists: false\n  generateHDF5: false\n  generateNDJson: false\n  overrideArrayHeader: %s\n" % cxx.ARRAY_HEADER
-        fields = "    own: int\n" + "".join("    f%d: %s.R%d?\n" % (j, ns_of(j), j) for j in sorted(set(imps)) if j != i)
+        fields = "    own: int\n" + "".join("    f%d: %s.R%d?\n" % (j, ns_of(j), j) for j in sorted(set(imps)) if j != i and j not in no_refs_to)
         model = "R%d: !record\n  fields:\n%s" % (i, fields)
         if i == 0:
             model += "Root: !protocol\n  sequence:\n    r: R0\n"
@@ -280,10 +280,9 @@ def shared_namespaces(ctx, home, graphs, quick):
         for oi, ordered in enumerate(orders):
             base = os.path.join(ctx.workdir, "cases", "dup%d_%d_%d_%d" % (gi, a, b, oi))
             shutil.rmtree(base, ignore_errors=True)
-            pkgdir = write_graph(base, n, ordered, ns_of=ns_of)
-            if both or True:
-                # the records of the two claimants are both called Dup.R<i>; a root that uses both refers to each by its own record name
-                pass
+            # nobody refers to the types of the two claimants: apart from the doubly claimed namespace the packages are valid, so that an exit
+            # status of 1 can only come from the conflict itself
+            pkgdir = write_graph(base, n, ordered, ns_of=ns_of, no_refs_to=(a, b))
             p, parsed, dump = observe(pkgdir, home)
             ctx.ev()
             ctx.case(("shared-namespace", n, tuple(sorted((u, tuple(v)) for u, v in ordered.items())), a, b))
